@@ -1,5 +1,6 @@
 import CorsVerif.Proofs.Validate
 import CorsVerif.Proofs.Twins
+import CorsVerif.Proofs.C06Assembly
 /-
   C15 — Config lists are sets: order, duplicates and header-name case are irrelevant.
 
@@ -16,7 +17,10 @@ import CorsVerif.Proofs.Twins
       two is listed first, in both credential modes, also with duplicates and other letter case;
     * C15_errors_perm: the reported violations of a permuted list are a permutation of the
       violations of the original list (from C05);
-    * C15_accept_perm: permuting any of the four lists preserves acceptance.
+    * C15_accept_perm: permuting any of the four lists preserves acceptance;
+    * C15_accept_members (via allErrs_nil_iff: a configuration is accepted iff its scalars are fine
+      and every entry of every list is clean on its own): configurations whose lists have the same
+      members, in any order and multiplicity, are accepted or rejected together.
   The `twins` relational suite (Go against Go) ties the implementation to this: generated twins of
   generated configurations must be accepted alike and answer generated requests identically.
 -/
@@ -235,6 +239,110 @@ theorem C15_perm (ext : Ext) (hext : ∀ h info, ext.ip6 h = some info → h.hea
     (fun _ => h.origins.mem_iff) (fun _ => h.methods.mem_iff) (fun _ => h.requestHeaders.mem_iff)
     (fun _ => h.responseHeaders.mem_iff)) i1 i2 a1 a2
 
+/-! ### Acceptance does not depend on order or multiplicity either -/
+
+open Validate Folds TreeRT C06A CfgRT in
+/-- The errors of a configuration vanish iff its scalars are fine and every entry of every list is
+clean on its own — a statement about *members*, not about lists. -/
+theorem allErrs_nil_iff (ext : Ext) (c : Config) :
+    Validate.allErrs ext c = [] ↔
+      (Validate.statusErrs c = [] ∧ Validate.pnaErrs c = [] ∧ Validate.maxAgeErrs c = [] ∧ c.origins ≠ [] ∧
+       (∀ raw ∈ c.origins, rawErrs ext c.credentialed (Validate.pnaAny c) c.tolInsecure c.tolPSL raw = []) ∧
+       (∀ n ∈ c.methods, methodErr n = []) ∧ (∀ n ∈ c.requestHeaders, reqHdrErr n = []) ∧
+       (∀ n ∈ c.responseHeaders, resHdrErr c.credentialed n = [])) := by
+  have hfield : ∀ es : List CfgErr, Validate.fieldErr es = [] ↔ es = [] := by
+    intro es
+    constructor
+    · exact fieldErr_nil
+    · intro h; rw [h]; rfl
+  have hM : Validate.methodErrs c = [] ↔ ∀ n ∈ c.methods, methodErr n = [] := by
+    unfold Validate.methodErrs
+    rw [hfield]
+    have : (Validate.methods c.methods).1 = c.methods.flatMap methodErr := by
+      show (c.methods.foldl methodStep {}).errs = _
+      rw [Folds.methods_errs]; rfl
+    rw [this]
+    exact ⟨nil_of_flatMap_nil, flatMap_nil_of _ _⟩
+  have hQ : Validate.reqHdrErrs c = [] ↔ ∀ n ∈ c.requestHeaders, reqHdrErr n = [] := by
+    unfold Validate.reqHdrErrs
+    rw [hfield]
+    have : (Validate.requestHeaders c.credentialed c.requestHeaders).1 = c.requestHeaders.flatMap reqHdrErr := by
+      have h1 : (Validate.requestHeaders c.credentialed c.requestHeaders).1 = (c.requestHeaders.foldl (reqHdrStep c.credentialed) {}).errs := by
+        unfold Validate.requestHeaders
+        simp only []
+        split <;> rfl
+      rw [h1, Folds.reqHdr_errs]; rfl
+    rw [this]
+    exact ⟨nil_of_flatMap_nil, flatMap_nil_of _ _⟩
+  have hE : Validate.resHdrErrs c = [] ↔ ∀ n ∈ c.responseHeaders, resHdrErr c.credentialed n = [] := by
+    unfold Validate.resHdrErrs
+    rw [hfield]
+    have : (Validate.responseHeaders c.credentialed c.responseHeaders).1 = c.responseHeaders.flatMap (resHdrErr c.credentialed) := by
+      show (c.responseHeaders.foldl (resHdrStep c.credentialed) {}).errs = _
+      rw [Folds.resHdr_errs]; rfl
+    rw [this]
+    exact ⟨nil_of_flatMap_nil, flatMap_nil_of _ _⟩
+  have hO : Validate.originErrs ext c = [] ↔ (c.origins ≠ [] ∧
+      ∀ raw ∈ c.origins, rawErrs ext c.credentialed (Validate.pnaAny c) c.tolInsecure c.tolPSL raw = []) := by
+    unfold Validate.originErrs Validate.originsResult
+    cases ho : c.origins with
+    | nil => simp [Validate.origins]
+    | cons a t =>
+      have hne : a :: t ≠ [] := by simp
+      simp only [List.isEmpty_cons, Bool.false_eq_true, if_false]
+      rw [hfield, origins_eq _ _ _ _ _ _ hne]
+      simp only []
+      constructor
+      · intro h; exact ⟨hne, nil_of_flatMap_nil h⟩
+      · rintro ⟨_, h⟩; exact flatMap_nil_of _ _ h
+  unfold Validate.allErrs
+  simp only [List.append_eq_nil_iff]
+  rw [hM, hQ, hE, hO]
+  constructor
+  · rintro ⟨⟨⟨⟨⟨⟨h0, h1⟩, h2, h2'⟩, h3⟩, h4⟩, h5⟩, h6⟩
+    exact ⟨h0, h1, h5, h2, h2', h3, h4, h6⟩
+  · rintro ⟨h0, h1, h5, h2, h2', h3, h4, h6⟩
+    exact ⟨⟨⟨⟨⟨⟨h0, h1⟩, h2, h2'⟩, h3⟩, h4⟩, h5⟩, h6⟩
+
+/-- **C15 (acceptance of twins).** Two configurations with equal scalars whose lists have the same
+members — whatever the order and the multiplicities — are accepted or rejected together. -/
+theorem C15_accept_members (ext : Ext) (c1 c2 : Config)
+    (hc : c1.credentialed = c2.credentialed) (hm : c1.maxAge = c2.maxAge) (hs : c1.status = c2.status)
+    (hp : c1.pna = c2.pna) (hn : c1.pnaNoCors = c2.pnaNoCors) (hi : c1.tolInsecure = c2.tolInsecure)
+    (hl : c1.tolPSL = c2.tolPSL)
+    (ho : ∀ x, x ∈ c1.origins ↔ x ∈ c2.origins) (hme : ∀ x, x ∈ c1.methods ↔ x ∈ c2.methods)
+    (hrq : ∀ x, x ∈ c1.requestHeaders ↔ x ∈ c2.requestHeaders)
+    (hrs : ∀ x, x ∈ c1.responseHeaders ↔ x ∈ c2.responseHeaders) :
+    (∃ i1, newInternalConfig ext c1 = .ok i1) ↔ (∃ i2, newInternalConfig ext c2 = .ok i2) := by
+  have hacc : ∀ c : Config, (∃ i, newInternalConfig ext c = .ok i) ↔ Validate.allErrs ext c = [] := by
+    intro c
+    constructor
+    · rintro ⟨i, hi⟩; exact ((accepted_iff ext c i).mp hi).1
+    · intro h; exact ⟨_, (accepted_iff ext c _).mpr ⟨h, rfl⟩⟩
+  rw [hacc, hacc, allErrs_nil_iff, allErrs_nil_iff]
+  have e0 : Validate.statusErrs c1 = Validate.statusErrs c2 := by unfold Validate.statusErrs; rw [hs]
+  have e1 : Validate.pnaErrs c1 = Validate.pnaErrs c2 := by unfold Validate.pnaErrs; rw [hp, hn]
+  have e2 : Validate.maxAgeErrs c1 = Validate.maxAgeErrs c2 := by unfold Validate.maxAgeErrs; rw [hm]
+  have e3 : Validate.pnaAny c1 = Validate.pnaAny c2 := by unfold Validate.pnaAny; rw [hp, hn]
+  have e4 : (c1.origins ≠ []) ↔ (c2.origins ≠ []) := by
+    constructor
+    · intro h h2
+      cases h1 : c1.origins with
+      | nil => exact h h1
+      | cons a t => have := (ho a).mp (by rw [h1]; exact List.mem_cons_self); rw [h2] at this; cases this
+    · intro h h1
+      cases h2 : c2.origins with
+      | nil => exact h h2
+      | cons a t => have := (ho a).mpr (by rw [h2]; exact List.mem_cons_self); rw [h1] at this; cases this
+  rw [e0, e1, e2, e3, hc, hi, hl, e4]
+  constructor
+  · rintro ⟨a, b, c, d, e, f, g, h⟩
+    exact ⟨a, b, c, d, fun x hx => e x ((ho x).mpr hx), fun x hx => f x ((hme x).mpr hx),
+      fun x hx => g x ((hrq x).mpr hx), fun x hx => h x ((hrs x).mpr hx)⟩
+  · rintro ⟨a, b, c, d, e, f, g, h⟩
+    exact ⟨a, b, c, d, fun x hx => e x ((ho x).mp hx), fun x hx => f x ((hme x).mp hx),
+      fun x hx => g x ((hrq x).mp hx), fun x hx => h x ((hrs x).mp hx)⟩
+
 /-! ### Non-vacuity: a concrete pair of accepted twins that differ in order, multiplicity, letter
 case, method spelling and dropped entries -/
 
@@ -293,5 +401,7 @@ example : ∀ h info, extTw.ip6 h = some info → h.head? ≠ some 42 := fun _ _
 #print axioms C15_accept_perm
 #print axioms C15_full
 #print axioms C15_perm
+#print axioms allErrs_nil_iff
+#print axioms C15_accept_members
 
 end Cors
